@@ -252,15 +252,19 @@ def _is_a5(frame):
     return "/a5/" in fn and not fn.endswith("_verif.py")
 
 
-def dense(A, B, warm):
+def dense(A, B, warm, every=1):
+    """B at every `every`-th line event of A"""
     import a5  # noqa
     _warmup(A, B, warm)
-    st = {"in": False, "n": 0, "bres": {}, "bexc": 0}
+    st = {"in": False, "n": 0, "bres": {}, "bexc": 0, "seen": 0}
 
     def tracer(frame, event, arg):
         if not _is_a5(frame):
             return None
         if event == "line" and not st["in"]:
+            st["seen"] += 1
+            if st["seen"] % every:
+                return tracer
             st["in"] = True
             sys.settrace(None)
             try:
@@ -278,7 +282,7 @@ def dense(A, B, warm):
         a = _run(A)
     finally:
         sys.settrace(None)
-    return {"a": a[0], "apreview": a[1], "lines": st["n"], "b": st["bres"], "first_split": st.get("first_split")}
+    return {"a": a[0], "apreview": a[1], "lines": st["seen"], "injected": st["n"], "b": st["bres"], "first_split": st.get("first_split")}
 
 
 def single(A, B, k, warm, gran):
